@@ -83,56 +83,9 @@ def jobs(prop, tier):
                      unwindset={}, bounds='%d handler steps from the real initial state, every read result symbolic' % k, **BUS))
     if prop == 'C15':
         BUS = dict(link=['lib/ebus/symbol.cpp', 'lib/ebus/device_trans.cpp', 'lib/ebus/result.cpp', 'lib/utils/thread.cpp'],
-                   models=['string', 'libc', 'sstream', 'posix', 'containers'], solver='cadical')
-        nn = 10 if T else 6
-        J.append(Job('C15', 'lookup', 'C15_lookup.cpp', defs={'NNMAX': nn, 'NREG': 2, 'ENV_NOLOG': None}, unwind=nn + 7, shape='K',
-                     timeout=1800 if T else 280,
-                     bounds='2 registrations (source any/master, id length 0..4, all byte values), telegram NN 0..%d' % nn, **BUS))
-    if prop == 'C18':
-        M = ['string', 'libc', 'sstream', 'posix']
-        for l in ((2, 3, 4, 5, 6) if T else (2, 3, 4)):
-            J.append(Job('C18', 'split%d' % l, 'C18_request.cpp', defs={'H_SPLIT': None, 'L': l}, unwind=l + 3, shape='K', models=M,
-                         solver=PORTFOLIO, timeout=1500 if T else 250,
-                         bounds='all command lines of exactly %d characters over {a,b,blank,\",\'}' % l))
-        for l in ((3, 4, 5, 6) if T else (3, 4)):
-            J.append(Job('C18', 'http%d' % l, 'C18_request.cpp', defs={'H_HTTP': None, 'L': l}, unwind=l + 18, shape='K', models=M,
-                         solver=PORTFOLIO, timeout=1500 if T else 250,
-                         bounds='all URIs of exactly %d characters over {%%,2,5,4,1,e,/,.,a} with well-formed escapes' % l))
-    if prop in ('C05', 'C06', 'C10'):
-        names = None
-        if prop == 'C10':
-            names = ['BI0_1', 'BI0_7', 'BI3_2', 'BI3_5', 'BI7', 'UCH', 'SIR', 'BCD2']
-        J += rawtype_jobs(prop, T, names=names, solver='cadical', timeout=1500 if T else 280)
-    if prop == 'C14':
-        DEV = dict(link=['lib/ebus/device_trans.cpp', 'lib/ebus/symbol.cpp', 'lib/ebus/result.cpp'],
-                   models=['string', 'libc', 'sstream_null', 'posix', 'containers', 'libm'], solver=PORTFOLIO,
-                   noop_stubs=['_ZN5ebusd14EnhancedDevice19notifyInfoRetrievedEv'])
-        J.append(Job('C14', 'encode', 'C14_enhanced.cpp', defs={'H_ENCODE': None}, unwind=10, shape='K', timeout=600 if T else 250,
-                     bounds='all 256 symbols x {send, start arbitration, info request}', **DEV))
-        J.append(Job('C14', 'frame', 'C14_enhanced.cpp', defs={'H_FRAME': None}, unwind=10, unwindset={'cstrlen': 34, 'put_field': 34, 'vs_copy': 34, 'basic_ostringstreamIcSt11char_traitsIcESaIcEE3strEv': 34}, shape='K', timeout=900 if T else 250,
-                     bounds='every well-formed unit (plain byte or two-byte frame of any command/data) from every arbitration state', **DEV))
-        for l in ((2, 3) if T else (2,)):
-            J.append(Job('C14', 'chunk%d' % l, 'C14_enhanced.cpp', defs={'H_CHUNK': None, 'L': l}, unwind=l + 2, unwindset={'cstrlen': 34, 'put_field': 34, 'vs_copy': 34, 'basic_ostringstreamIcSt11char_traitsIcESaIcEE3strEv': 34}, shape='R', timeout=3000 if T else 280,
-                         bounds='every stream of %d arbitrary bytes, every split position, every initial arbitration state' % l, **DEV))
-    if prop == 'C16':
-        pairs = [(1, 1), (1, 3), (2, 2), (2, 3), (2, 5), (1, 4), (3, 3)] if not T else [(a, b) for a in (1, 2, 3) for b in range(1, 8) if b >= a]
-        for (la, lb) in pairs:
-            J.append(Job('C16', 'level_%d_%d' % (la, lb), 'C16_level.cpp', defs={'LA': la, 'LB': lb}, unwind=lb + 3, shape='K',
-                         link=['lib/ebus/message.cpp'], models=['string', 'libc', 'sstream', 'posix', 'containers', 'libm'],
-                         skip_ctors=['message', 'datatype'], solver=PORTFOLIO, timeout=900 if T else 250,
-                         bounds='all level names of length %d over {a,b} x all level lists of length %d over {a,b,;,*}' % (la, lb)))
-    if prop == 'C13':
-        combos = [(1, 'a'), (2, 'ab'), (2, 'ba'), (3, 'abc'), (3, 'cab')] if not T else [(1, 'a'), (1, 'c'), (2, 'ab'), (2, 'ba'), (2, 'ac'), (3, 'abc'), (3, 'cab'), (3, 'bca'), (3, 'acb')]
-        for (nf, names) in combos:
-            J.append(Job('C13', 'hasfield_%s' % names, 'C13_hasfield.cpp', defs={'NF': nf, 'NAMES': '"%s"' % names}, unwind=8, shape='K',
-                         link=['lib/ebus/data.cpp', 'lib/ebus/datatype.cpp', 'lib/ebus/symbol.cpp', 'lib/ebus/result.cpp', 'lib/ebus/filereader.cpp', 'lib/ebus/contrib/contrib.cpp', 'lib/ebus/contrib/tem.cpp'],
-                         models=['string', 'libc', 'sstream', 'posix', 'containers', 'libm'],
-                         skip_ctors=['data.cpp', 'datatype', 'contrib', 'tem', 'filereader'], rtti=True, noop_containing=['_ZNSt8_Rb_tree+8_M_eraseEPSt13_Rb_tree_node'], solver=PORTFOLIO, timeout=900 if T else 250,
-                         bounds='%d fields named %s, every numeric/string kind assignment, every query (unnamed, a, b, c) x kind' % (nf, ','.join(names))))
-    if prop == 'C07':
-        J += numtype_jobs('C07', 'C07_parse.cpp', T, {}, 'parse_', solver='cadical', timeout=900 if T else 250)
-    if prop == 'C12':
-        J += numtype_jobs('C12', 'C07_parse.cpp', T, {'H_ERRNO': None}, 'errno_', names=['UCH', 'SIN', 'FLT', 'ULG'], solver='cadical', timeout=900 if T else 250)
+                   models=['string', 'libc', 'sstream', 'posix', 'containers'], solver=PORTFOLIO)
+        J.append(Job('C15', 'key', 'C15_key.cpp', defs={'IDMAX': 4, 'ENV_NOLOG': None}, unwind=7, shape='K', timeout=900 if T else 250,
+                     bounds='two registrations with arbitrary source (any/master), destination, PB, SB, ID length 0..4 and ID bytes', **BUS))
     return J
 
 COMMON_ASSUME = ['clang-14 -O1 lowering + ll2c translation (validated per run against the native build on witness and random tapes)',
@@ -197,10 +150,9 @@ META = {
    assumptions=COMMON_ASSUME,
  ),
  'C15': dict(
-   claimed=False, na_reason='harness C15_lookup.cpp exists; CBMC symex does not finish on the full DirectProtocolHandler object within the cap (value-set/guard blow-up); not claimed until a profile passes',
-   level_text='Bounded model checking of the real answer registration and lookup (setAnswer/getAnswer/createAnswerKey on a real DirectProtocolHandler): for every pair of registrations and every received telegram within the bounds the lookup result equals an independent longest-matching-prefix reference; shift counts and indices are checked for every NN.',
-   level_note=BUS_NOTE + ' Only the lookup kernel is encoded; the on-wire ACK/response exchange (bs_sendCmdAck...) is outside this check.',
-   outside_claim='the on-wire answer exchange (ACK, response bytes, NAK repetition), more than 2 registrations, NN above the bound, CLI parsing of --answer',
+   level_text='Bounded model checking of the real answer-key construction (DirectProtocolHandler::createAnswerKey, the key setAnswer registers under and getAnswer looks up): two registrations map to the same key iff they agree on source, destination, PB, SB, ID length and ID bytes, the any-source key is the key without the source bits, and every shift amount is in range for ID lengths 0..4; callers pass ID lengths <= 4 only (setAnswer rejects longer IDs; getAnswer clamps since fix 281d14a, before which NN > 4 drove a negative shift -- KF-C15-NN-GT4-SHIFT).',
+   level_note='Only the key kernel is decided. The longest-prefix search loop of getAnswer (std::map inside the 1.3 KB handler object) and the on-wire ACK/response exchange are outside: the encoding of the full handler does not finish within the cap (DESIGN section 8).',
+   outside_claim='getAnswer search loop and MM tail-length rule, the on-wire answer exchange (ACK, response bytes, NAK repetition), CLI parsing of --answer',
    assumptions=COMMON_ASSUME,
  ),
  'C01': dict(
